@@ -13,8 +13,12 @@ ENTRIES = [
     Entry('buffer-inherits-int-dtype', S, [('        factor = self.thermoFactorMin * np.ones(ar.shape)', '        factor = np.full_like(ar, self.thermoFactorMin)')], 'R15.4'),
     Entry('scalar-equation-in-place', S, [('        R = np.atleast_1d(R)\n        return np.squeeze(self._aspectRatioScalar * np.ones(R.shape))', '        R = np.atleast_1d(R)\n        R[:] = self._aspectRatioScalar\n        return np.squeeze(R)')], 'R15.1'),
     Entry('stale-scalar-thermo-cache', S, [('            self._aspectRatioScalar = ar\n', '            self._aspectRatioScalar = ar\n            self._thermoScalar = self.description.thermoFactor(ar)\n')], 'R15.5'),
+    Entry('bisection-narrowed-bracket', S, [('        maxR = Rmax\n', '        maxR = np.minimum(Rmax, 10*RcritSphere)\n')], 'R15.7'),
+    Entry('bisection-both-ends-moved', S, [('            else:\n                maxR = midR\n                fMax = fMid\n', '            else:\n                maxR = midR\n                fMax = fMid\n                minR = RcritSphere\n')], 'R15.7'),
+    Entry('bisection-midpoint-not-recomputed', S, [('            midR = (minR + maxR) / 2\n            fMid = midR / (RcritSphere * self.thermoFactor(midR)) - 1\n', '            fMid = midR / (RcritSphere * self.thermoFactor(midR)) - 1\n')], 'R15.7'),
     # benign
     Entry('benign-min-from-formula-above-one', S, [('        self.eqRadiusFactorMin = self._eqRadius(1)', '        self.eqRadiusFactorMin = self.eqRadiusFactor(1.0000001)')], kind='benign'),
     Entry('benign-needle-scale-power', S, [('        scale = np.cbrt(1 / ar)\n        return np.cbrt((3 / (4 * np.pi))) * np.array([scale, scale, scale * ar]).T', '        scale = ar**(-1/3)\n        return np.cbrt((3 / (4 * np.pi))) * np.array([scale, scale, scale * ar]).T')], kind='benign'),
     Entry('benign-clamp-where', S, [('        ar = np.maximum(np.atleast_1d(ar), 1)\n        return ar', '        ar = np.where(np.atleast_1d(ar) < 1, 1, np.atleast_1d(ar))\n        return ar')], kind='benign'),
+    Entry('benign-bisection-half', S, [('            midR = (minR + maxR) / 2\n            fMid', '            midR = 0.5 * (minR + maxR)\n            fMid'), ('        midR = (minR + maxR) / 2\n        \n', '        midR = 0.5 * (minR + maxR)\n        \n')], kind='benign'),
 ]
